@@ -334,4 +334,24 @@ pub fn post_tagged(exp: &Exp) {
         }
         i += 1;
     }
+    // every report made must be an expected one; an unexpected report is attributed by what it claims
+    let mut i = 0;
+    while i < nrep() {
+        let r = rep(i);
+        let mut c = 0;
+        let mut j = 0;
+        while j < exp.n {
+            if rep_matches(&r, &exp.r[j]) {
+                c += 1;
+            }
+            j += 1;
+        }
+        match r.kind {
+            R_MISSING => assert!(c >= 1, "C07: a field was reported missing although no such report is due (field looked up under a key that is not its effective key, or wrong key / place in the report)"),
+            R_UNKKEY => assert!(c >= 1, "C09: a key was reported unknown although no such report is due (known key, tag key, or no deny_unknown_fields)"),
+            R_FOREIGN => assert!(c >= 1, "C11: a conversion / validation / custom error was reported although none is due"),
+            _ => assert!(c >= 1, "C02: a report was made that corresponds to no fault of the payload"),
+        }
+        i += 1;
+    }
 }
